@@ -11,7 +11,7 @@
 
   Only the *types* `Entry`, `Proc`, `FS`, `POpenFile`, `Outcome`, `Exc` are shared with the model.
 -/
-import PsutilModel.Model.C14
+import PsutilModel.Model.C14Io
 namespace Psutil.C14.Spec
 open Psutil.C14
 
@@ -296,9 +296,9 @@ def acctItems (a : IoAcct) : List Item :=
 def renderIo (a : IoAcct) : Bytes := renderItems (acctItems a)
 
 /-- the `name: value` lines of a file, in file order -/
-def kvs : List Item → List (Bytes × Nat)
+def kvs : List Item → List (Bytes × Int)
   | [] => []
-  | .kv n v :: its => (n, v) :: kvs its
+  | .kv n v :: its => (n, (v : Int)) :: kvs its
   | _ :: its => kvs its
 
 /-- psutil's documented field ← kernel counter:
@@ -310,7 +310,7 @@ def documentedFields : List Bytes :=
   [ofAscii "read_count", ofAscii "write_count", ofAscii "read_bytes", ofAscii "write_bytes",
    ofAscii "read_chars", ofAscii "write_chars"]
 
-def pick (m : List (Bytes × Nat)) : List Bytes → Option (List Nat)
+def pick (m : List (Bytes × Int)) : List Bytes → Option (List Int)
   | [] => some []
   | k :: ks =>
     match m.lookup k, pick m ks with
@@ -319,14 +319,14 @@ def pick (m : List (Bytes × Nat)) : List Bytes → Option (List Nat)
 
 /-- the six values in the documented order; an entirely empty file (no counter line at all)
     is reported as RuntimeError, a file lacking one of the six counters as ValueError -/
-def expectedIo (its : List Item) : Outcome (List Nat) :=
+def expectedIo (its : List Item) : Outcome (List Int) :=
   if (kvs its).isEmpty then .exc .runtimeError
   else match pick (kvs its) documentedKeys with
     | some vs => .ok vs
     | none => .exc .valueError
 
-def expectedIoAcct (a : IoAcct) : List Nat :=
-  [a.syscr, a.syscw, a.readBytes, a.writeBytes, a.rchar, a.wchar]
+def expectedIoAcct (a : IoAcct) : List Int :=
+  [(a.syscr : Int), a.syscw, a.readBytes, a.writeBytes, a.rchar, a.wchar]
 
 /-- does `sep` occur in `s`? -/
 def containsSeq (sep : Bytes) : Bytes → Bool
@@ -337,13 +337,13 @@ def allWs (s : Bytes) : Bool := s.all isWs
 
 /-- well-formed lines: names are non-empty words without `:`; blank lines are blanks without
     a newline; junk has no newline and does not contain `": "`; a bad value is a word without
-    `:` containing something that is not a digit -/
+    `:` that Python's `int()` does not read as a number (`+5`, `1_0` ARE numbers) -/
 def WFItem : Item → Prop
   | .kv name _ => name ≠ [] ∧ 58 ∉ name ∧ NoWs name
   | .blank ws => allWs ws = true ∧ 10 ∉ ws
   | .junk s => 10 ∉ s ∧ containsSeq sepText s = false
   | .badval name val =>
-    (name ≠ [] ∧ 58 ∉ name ∧ NoWs name) ∧ val ≠ [] ∧ 58 ∉ val ∧ NoWs val ∧ (∃ c ∈ val, isDigit c = false)
+    (name ≠ [] ∧ 58 ∉ name ∧ NoWs name) ∧ val ≠ [] ∧ 58 ∉ val ∧ NoWs val ∧ pyIntZ val = none
 
 instance (it : Item) : Decidable (WFItem it) := by
   cases it <;> simp only [WFItem, NoWs] <;> infer_instance
